@@ -458,9 +458,11 @@ def punctuation_root(tree, **params):
              if terminal.data['word'] in trees.PUNCT \
              and len(trees.children(terminal.parent)) > 1]
     for p in punct:
-        p.parent.children.remove(p)
-        tree.children.append(p)
-        p.parent = tree
+        # parent may have lost its other children in the meantime
+        if len(p.parent.children) > 1:
+            p.parent.children.remove(p)
+            tree.children.append(p)
+            p.parent = tree
     return tree
 
 
